@@ -16,7 +16,9 @@
 (*                                                                         *)
 (* DIP line kinds: "unit" ($unit definition), "use"/"conv"/"cond" (a node with a unit, a          *)
 (* modification in another unit, a logical expression: scopes whose body succeeds), "bad"/        *)
-(* "convbad" (body raises: malformed $unit, inconvertible modification), "nest" (numerical        *)
+(* "convbad" (body raises: malformed $unit, inconvertible modification), "condbad"/"nestbad"/     *)
+(* "boolbad" (a condition / numerical expression / boolean node comparing or adding incompatible  *)
+(* units raises inside the solver's scope), "nest" (numerical                                     *)
 (* expression; see NestedNumerical).                                                               *)
 (* API-level history `hist` (what a caller can do and see) is what the     *)
 (* replay harness executes: Open(units) -> ok | fail, Close(id),           *)
@@ -198,7 +200,7 @@ DipBody ==
          ln == dip.text[dip.i]
          dup == ln.kind = "unit" /\ ln.sym \in {dip.units[j].sym : j \in 1..Len(dip.units)}
      IN /\ Close(c)
-        /\ IF ln.kind \in {"bad", "convbad"} \/ dup \/ (NestedNumerical /\ ln.kind = "nest" /\ dip.units # <<>>)
+        /\ IF ln.kind \in {"bad", "convbad", "condbad", "nestbad", "boolbad"} \/ dup \/ (NestedNumerical /\ ln.kind = "nest" /\ dip.units # <<>>)
               \/ (ln.kind \in NeedsLen /\ "[len]" \notin {dip.units[j].sym : j \in 1..Len(dip.units)})   \* unknown unit
            THEN /\ dip' = NoDip /\ Log("dip", dip.text, "fail")
            ELSE IF dip.i = Len(dip.text)
